@@ -58,11 +58,10 @@ namespace vf
   }
 
   /// the property body. mk_l/mk_r create vectors of the row/column space. snap() gives the raw bytes of A.
-  template<typename DT, typename M, typename MkL, typename MkR, typename Snap>
-  void apply_case(Tape& t, Ctx& c, const M& A, const Dense& Dexp, bool has_transposed, MkL mk_l, MkR mk_r, Snap snap)
+  template<typename DT, bool HasT = true, typename M, typename MkL, typename MkR, typename Snap>
+  void apply_case_d(Tape& t, Ctx& c, const M& A, const Dense& D, const Dense& Dexp, bool has_transposed, MkL mk_l, MkR mk_r, Snap snap)
   {
-    // 1. the container represents the generated matrix (independent view from the raw arrays)
-    Dense D = dense_of(A);
+    // 1. the container represents the generated matrix (D: independent view from the raw arrays)
     VF_CHECK(D.r == Dexp.r && D.c == Dexp.c, "constructed matrix has dims " << D.r << "x" << D.c << " expected " << Dexp.r << "x" << Dexp.c);
     VF_CHECK(D.a == Dexp.a, "constructed matrix differs from its description");
 
@@ -87,16 +86,16 @@ namespace vf
     c.desc.set("op", opn[op]); c.desc.set("alpha", (double)alpha); c.desc.set("alias_r_y", alias); c.desc.set("x", J(xv)); if(axpy) c.desc.set("y", J(yv));
 
     // input lives in the column space (row space for transposed); L and R types may differ
-    auto run = [&](auto& x, auto& r, auto& y)
+    auto run = [&](auto tr_tag, auto& x, auto& r, auto& y)
     {
       VF_CHECK(vsize(x) == nin && vsize(r) == nout, "vector sizes do not fit the matrix: x " << vsize(x) << " r " << vsize(r) << " matrix " << D.r << "x" << D.c);
       vfill_all(x, xv); vfill_all(y, yv);
       std::vector<double> garbage((size_t)nout, std::numeric_limits<double>::quiet_NaN());
-      if(!alias) vfill_all(r, garbage);
+      if(!alias) vfill_all(r, garbage); else vfill_all(r, yv);   // aliased: r doubles as y
       std::vector<long double> xs, ys; vflat(x, xs); vflat(alias ? r : y, ys);  // stored (possibly narrowed) inputs
       std::string a0 = snap(A), x0, y0; vbytes(x, x0); if(!alias) vbytes(y, y0);
       c.announce();
-      if(!transposed) { if(!axpy) A.apply(r, x); else if(alias) A.apply(r, x, r, alpha); else A.apply(r, x, y, alpha); }
+      if constexpr(!decltype(tr_tag)::value) { if(!axpy) A.apply(r, x); else if(alias) A.apply(r, x, r, alpha); else A.apply(r, x, y, alpha); }
       else { if(!axpy) A.apply_transposed(r, x); else if(alias) A.apply_transposed(r, x, r, alpha); else A.apply_transposed(r, x, y, alpha); }
       std::string a1 = snap(A), x1, y1; vbytes(x, x1); if(!alias) vbytes(y, y1);
       VF_CHECK(a0 == a1, "matrix operand modified by " << opn[op]);
@@ -116,7 +115,14 @@ namespace vf
         VF_CHECK(std::isfinite((double)got) && fabsl(got - ref) <= tol, opn[op] << " entry " << i << ": got " << (double)got << " expected " << (double)ref << " tol " << (double)tol);
       }
     };
-    if(!transposed) { auto x = mk_r(); auto r = mk_l(); auto y = mk_l(); run(x, r, y); }
-    else { auto x = mk_l(); auto r = mk_r(); auto y = mk_r(); run(x, r, y); }
+    if(!transposed) { auto x = mk_r(); auto r = mk_l(); auto y = mk_l(); run(std::false_type(), x, r, y); }
+    else if constexpr(HasT) { auto x = mk_l(); auto r = mk_r(); auto y = mk_r(); run(std::true_type(), x, r, y); }
+  }
+
+  template<typename DT, bool HasT = true, typename M, typename MkL, typename MkR, typename Snap>
+  void apply_case(Tape& t, Ctx& c, const M& A, const Dense& Dexp, bool has_transposed, MkL mk_l, MkR mk_r, Snap snap)
+  {
+    Dense D = dense_of(A);
+    apply_case_d<DT, HasT>(t, c, A, D, Dexp, has_transposed, mk_l, mk_r, snap);
   }
 } // namespace vf
